@@ -387,7 +387,45 @@ def representations(s):
                     break
         if fails:
             break
-    s.bounded_standin("C13.end_to_end_re_presentations", "akimotoite example re-written by the package's own writer; %d re-presentations x %d interpolator(s); relative tolerance 1e-8; "
+    # the same on a synthetic-but-physical set (cheap: every re-presentation on every run): modes unsorted and crossing, non-integer weights, lattice block
+    all_variants = [("q-points 2..n permuted", perm_q, None), ("modes permuted within q-points", perm_m, None), ("weights x 4", scale_w, None),
+                    ("volume blocks reversed", rev_v, "may-raise"), ("two inner volume blocks swapped", swap_v, "may-raise")]
+    if not fails:
+        t1, t2, desc = calc_env.synthetic_texts(seed=s.seed + 5, nq=4, na=2, system="orthorhombic")
+        syn = {"qha": {"settings": {"NT": 6, "DT": 300, "DT_SAMPLE": 300, "NTV": 21, "DELTA_P": 2.0, "DELTA_P_SAMPLE": 2.0, "T_MIN": 0, "P_MIN": 0, "order": 3, "volume_ratio": 1.2}},
+               "elast": {"settings": {"mode_gamma": {"interpolator": "lsq_poly", "order": 3}, "symmetry": {"system": "orthorhombic"}}}}
+        with calc_env.Case("akimotoite", syn, input01_text=rewrite_input01(t1, ident), elast_text=t2) as case:
+            ref = case.build()
+            ref_vals = {k: numpy.array(v) for k, v in ref.modulus_adiabatic.items()}
+            ref_iso = {k: numpy.array(v) for k, v in ref.modulus_isothermal.items()}
+        for name, tf, mode in all_variants:
+            evals += 1
+            distinct += 1
+            with calc_env.Case("akimotoite", syn, input01_text=rewrite_input01(t1, tf), elast_text=t2) as case:
+                try:
+                    c = case.build()
+                except Exception as e:
+                    if mode == "may-raise":
+                        continue
+                    fails.append({"witness_id": "repr-syn:%s" % name, "input": {"data": "synthetic", "re-presentation": name, "set": desc}, "observed": "raises %r" % (e,), "expected": "same results"})
+                    break
+                bad = None
+                for k in ref_vals:
+                    for a, b, w in ((c.modulus_adiabatic[k], ref_vals[k], "adiabatic"), (c.modulus_isothermal[k], ref_iso[k], "isothermal")):
+                        a = numpy.asarray(a)
+                        ok = numpy.isfinite(b)
+                        scale = numpy.abs(b[ok]).max()
+                        if a.shape != b.shape or not numpy.allclose(a[ok], b[ok], rtol=1e-8, atol=1e-8 * scale):
+                            bad = "%s %r differs by up to %.3g (scale %.3g)" % (w, k, float(numpy.abs(a[ok] - b[ok]).max()) if a.shape == b.shape else float("nan"), scale)
+                            break
+                    if bad:
+                        break
+                if bad:
+                    fails.append({"witness_id": "repr-syn:%s" % name, "input": {"data": "synthetic", "re-presentation": name, "set": desc}, "observed": bad,
+                                  "expected": "results unchanged to rounding" + (" or an error" if mode else "")})
+                    break
+    s.bounded_standin("C13.end_to_end_re_presentations", "akimotoite example re-written by the package's own writer; %d re-presentations x %d interpolator(s); a synthetic set (4 q-points, "
+                      "unsorted crossing modes, non-integer weights) under all 5 re-presentations; relative tolerance 1e-8; "
                       "reordered volume blocks must give the same numbers or be rejected; seed %d" % (len(variants), len(interps), s.seed), evals, distinct, fails,
                       ["calculator.Calculator"])
 
